@@ -186,3 +186,183 @@ def k2_push_pop(res, tier):
         e.check(isinstance(r, EnumV) and r.variant_name() == 'Ok', 'pop_frame: reports the caller\'s function')
         return {'frames': st.nf, 'moved': bool(e.path_state.get('relocations'))}
     _finish(res, e, e.explore(path), 'C06.K2:push_pop:')
+
+
+# ---------------------------------------------------------------------------------------------- fiber creation
+class _RawVec:
+    """the managed RawUniqueVector an Allocator::manage(VecBuilder) call hands to UniqueVector::new"""
+    rust_ty = 'RawUniqueVector'
+
+    def __init__(self, uvec):
+        self.uvec = uvec
+
+    def copy_value(self, eng):
+        return self
+
+
+def _creation_world():
+    from .vmabs import AbsGc
+    FW = FiberWorld()
+    e, P = FW.e, FW.P
+    m = e.model
+
+    def deep(e_, v):
+        while isinstance(v, Ref):
+            v = v.cell.get(e_)
+        return v
+
+    def m_manage(e_, a, c):
+        data = deep(e_, a[1])
+        if isinstance(data, Struct) and 'VecBuilder' in data.ty:
+            sd = P.struct_def('VecBuilder') or P.struct_def(data.ty)
+            names = [n for n, _ in sd.fields]
+            sl = deep(e_, data.f[names.index('slice')].get(e_))
+            cap = data.f[names.index('cap')].get(e_)
+            if not isinstance(sl, SliceRef):
+                raise Unsupported('VecBuilder slice is ' + type(sl).__name__)
+            n = e_.slice_len(sl)
+            e_.path_state.setdefault('vec_allocs', []).append((n, cap))
+            src = sl.seq
+            if isinstance(src, SymSeq):
+                if not e_.is_valid(sl.start == 0):
+                    raise Unsupported('VecBuilder from an inner slice')
+                buf = SymSeq(src.elem_ty, src.arr, cap, src.scalar_sort, src.tyname)
+            else:
+                ccap = conc(z3.simplify(cap)) if not isinstance(cap, int) else cap
+                cn = conc(z3.simplify(n))
+                if ccap is None or cn is None:
+                    # a symbolic number of values copied out of a constant array: fresh buffer with unconstrained contents
+                    buf = e_.fresh_seq(src.elem_ty, NameBacking(e_.fresh_name('vecbuf')), cap)
+                else:
+                    cs = conc(z3.simplify(sl.start))
+                    cells = [Cell(e_.copy_value(src.cells[cs + i].get(e_))) for i in range(cn)]
+                    cells += [Cell(e_.fresh(src.elem_ty, e_.fresh_name('spare'))) for _ in range(ccap - cn)]
+                    buf = ConcSeq(src.elem_ty, cells)
+            return _RawVec(AbsUVec(buf, n))
+        k = len(e_.path_state.setdefault('managed', []))
+        g = AbsGc(z3.BitVec(f'managed{k}', 64), getattr(data, 'ty', type(data).__name__))
+        e_.path_state['managed'].append((g, data))
+        e_.memo[('gcdata', g.id.sexpr(), norm_ty(g.ty))] = cell = Cell(data)
+        e_.memo[('cellobj', id(cell))] = g
+        return g
+    m(r'^(laythe_core::)?(allocator::)?Allocator::manage$', m_manage)
+    m(r'^(laythe_core::)?(collections::)?(unique_vector::)?UniqueVector::new$', lambda e_, a, c: deep(e_, a[0]).uvec)
+    m(r'^(laythe_core::)?(allocator::)?Allocator::(push_root|pop_roots)$', lambda e_, a, c: UNIT)
+    m(r'^<RefMut as (std::ops::|core::ops::)?DerefMut>::deref_mut$', lambda e_, a, c: a[0])
+    m(r'^<(std::cell::|core::cell::)?RefMut as (std::ops::|core::ops::)?DerefMut>::deref_mut$', lambda e_, a, c: a[0])
+    def m_instructions(e_, a, c):
+        n = z3.BitVec('n_instructions', 64)
+        e_.add_constraint(z3.And(z3.UGE(n, 1), z3.ULT(n, 1 << 32)))      # the compiler ends every function with a return
+        return SliceRef(e_.fresh_seq('u8', NameBacking('instructions'), n), bv(0, 64), n)
+    m(r'^(laythe_core::)?(\w+::)*Chunk::instructions$', m_instructions)
+    e.allow_havoc(r'^(laythe_core::)?(object::)?(\w+::)*Fun::chunk$', r'^(laythe_core::)?(object::)?(channel::)?ChannelWaiter::(new|set_waiter)$')
+    return FW
+
+
+@obligation('C06.K2.fiber_new', 'C06', programs=('vm',), also=('C16',))
+def k2_fiber_new(res, tier):
+    """Fiber::new(fun, stack_count = max_slots + 1) for ANY max_slots: never a host panic; the new fiber's stack buffer is completely
+    filled with stack_count slots (the invariant ensure_stack relies on), slot 0 is the function, the stack top is slot 1 and the
+    single frame starts at slot 0 and is the current frame"""
+    FW = _creation_world()
+    e, P = FW.e, FW.P
+    f = P.lookup('fiber::Fiber::new')
+    res.bounds = {'max_slots': 'any below 2^31 (the compiler stores it as i32)', 'parent': 'any'}
+    res.assumptions = ['Allocator::manage(VecBuilder) yields a vector with the builder\'s contents and capacity (C20.K1 decides the layout)']
+
+    def path(e):
+        e.path_state.setdefault('events', [])
+        ms = z3.BitVec('max_slots', 64)
+        e.add_constraint(z3.ULT(ms, 1 << 31))
+        fun = AbsObj(z3.BitVec('callee_fun', 64), 'ObjRef<Fun>')
+        parent = e.fresh('std::option::Option<laythe_core::Ref<fiber::Fiber>>', 'parent')
+        r = e.call(f, [Ref(Cell(Opaque('Vm', 'context'))), parent, fun, e.fresh('laythe_core::Captures', 'caps'), z3.simplify(ms + 1)])
+        stack = r.f[FW.ix['stack']].get(e)
+        frames = r.f[FW.ix['frames']].get(e)
+        top = r.f[FW.ix['stack_top']].get(e)
+        fp = r.f[FW.ix['frame']].get(e)
+        e.check(z3.And(stack.len == ms + 1, stack.seq.len == ms + 1), 'Fiber::new: the stack has max_slots + 1 slots, all filled')
+        e.check(isinstance(top, SeqPtr) and top.seq is stack.seq and e.is_valid(top.idx == 1), 'Fiber::new: the stack top is slot 1')
+        e.check(e.is_valid(frames.len == 1), 'Fiber::new: exactly one frame')
+        fr0 = e.seq_cell(frames.seq, bv(0, 64)).get(e)
+        ss = fr0.field(e, FW.cfx['stack_start'], FW.cf_sd.fields[FW.cfx['stack_start']][1]).get(e)
+        e.check(isinstance(ss, SeqPtr) and ss.seq is stack.seq and e.is_valid(ss.idx == 0), 'Fiber::new: the frame starts at slot 0')
+        e.check(isinstance(fp, SeqPtr) and fp.seq is frames.seq and e.is_valid(fp.idx == 0), 'Fiber::new: the frame pointer designates that frame')
+        return {'fn': 'new', 'moved': True}
+    _creation_finish(res, e, e.explore(path), 'C06.K2:fiber_new:', dict(kind='lay', source=F29_SRC, expect_stdout='300\n'))
+
+
+@obligation('C06.K2.fiber_split', 'C06', programs=('vm',), also=('C16',))
+def k2_fiber_split(res, tier):
+    """Fiber::split(parent, argc) (launch) from any parent with 2..3 frames, for ANY max_slots of the launched function: never a host
+    panic; the child gets the popped frame on a completely filled buffer of max_slots + argc + 1 slots, its frame starts at slot 0,
+    its stack top is argc + 1; the parent drops the callee and its arguments and its previous frame is current again"""
+    FW = _creation_world()
+    e, P = FW.e, FW.P
+    f = P.lookup('fiber::Fiber::split')
+    res.bounds = {'max_slots': 'any below 2^31', 'argc': '0..255', 'parent frames': f'2..{MAXF}'}
+    res.assumptions = ['Allocator::manage(VecBuilder) yields a vector with the builder\'s contents and capacity', 'the arguments are copied with ptr::copy_nonoverlapping (contents not compared)']
+    ms = z3.BitVec('max_slots', 64)
+    e.model(r'^(laythe_core::)?(object::)?(fun::)?Fun::max_slots$', lambda e_, a, c: ms)
+    e.model(r'^(std|core)::(ptr|intrinsics)::copy_nonoverlapping$',
+            lambda e_, a, c: (e_.path_state.setdefault('copies', []).append((a[0], a[1], a[2])), UNIT)[1])
+    from .vmabs import AbsGc
+
+    def path(e):
+        st = FW.fiber(e)
+        e.assume(st.nf >= 2) if not isinstance(st.nf, int) else None
+        if st.nf < 2:
+            return None
+        e.add_constraint(z3.ULT(ms, 1 << 31))
+        argc = z3.BitVec('argc', 64)
+        top_start = st.starts[st.nf - 1]
+        # the callee frame was just pushed by resolve_call: its first slot is argc + 1 below the stack top
+        e.add_constraint(z3.And(z3.ULT(argc, 256), top_start + argc + 1 == st.sp))
+        pg = AbsGc(z3.BitVec('parent_fiber', 64), 'fiber::Fiber')
+        e.memo[('gcdata', pg.id.sexpr(), norm_ty('fiber::Fiber'))] = cell = Cell(st.fiber)
+        e.memo[('cellobj', id(cell))] = pg
+        r = e.call(f, [pg, Ref(Cell(Opaque('Vm', 'context'))), argc])
+        child = [d for g, d in e.path_state.get('managed', []) if g is r or (hasattr(g, 'id') and e.is_valid(g.id == r.id))]
+        e.check(len(child) == 1, 'split: the new fiber is the managed result')
+        ch = child[0]
+        stack = ch.f[FW.ix['stack']].get(e)
+        frames = ch.f[FW.ix['frames']].get(e)
+        top = ch.f[FW.ix['stack_top']].get(e)
+        fp = ch.f[FW.ix['frame']].get(e)
+        e.check(z3.And(stack.len == ms + argc + 1, stack.seq.len == ms + argc + 1), 'split: the child stack has max_slots + argc + 1 slots, all filled')
+        e.check(isinstance(top, SeqPtr) and top.seq is stack.seq and e.is_valid(top.idx == argc + 1), 'split: the child stack top is above the callee and its arguments')
+        e.check(e.is_valid(frames.len == 1), 'split: the child has exactly one frame')
+        fr0 = e.seq_cell(frames.seq, bv(0, 64)).get(e)
+        ss = fr0.field(e, FW.cfx['stack_start'], FW.cf_sd.fields[FW.cfx['stack_start']][1]).get(e)
+        e.check(isinstance(ss, SeqPtr) and ss.seq is stack.seq and e.is_valid(ss.idx == 0), 'split: the moved frame starts at slot 0 of the child stack')
+        e.check(isinstance(fp, SeqPtr) and fp.seq is frames.seq and e.is_valid(fp.idx == 0), 'split: the child frame pointer designates that frame')
+        cp = e.path_state.get('copies', [])
+        e.check(len(cp) == 1 and isinstance(cp[0][0], SeqPtr) and cp[0][0].seq is st.stack and e.is_valid(z3.And(cp[0][0].idx == top_start + 1, cp[0][2] == argc))
+                and isinstance(cp[0][1], SeqPtr) and cp[0][1].seq is stack.seq and e.is_valid(cp[0][1].idx == 1),
+                'split: exactly the argc arguments above the callee are copied to slots 1.. of the child')
+        ptop = st.fiber.f[FW.ix['stack_top']].get(e)
+        pfr = st.fiber.f[FW.ix['frames']].get(e)
+        pfp = st.fiber.f[FW.ix['frame']].get(e)
+        e.check(isinstance(ptop, SeqPtr) and ptop.seq is st.stack and e.is_valid(ptop.idx == top_start), 'split: the parent drops the callee and its arguments')
+        e.check(e.is_valid(pfr.len == st.nf - 1), 'split: the parent loses exactly the moved frame')
+        e.check(isinstance(pfp, SeqPtr) and e.is_valid(pfp.idx == st.nf - 2), 'split: the parent\'s previous frame is current again')
+        return {'fn': 'split', 'frames': st.nf, 'moved': True}
+    _creation_finish(res, e, [r for r in e.explore(path) if not (r.kind == 'ok' and r.info is None)], 'C06.K2:fiber_split:',
+                     dict(kind='lay', source=F29_SRC_LAUNCH, expect_stdout='300\n1\n'))
+
+
+F29_SRC = 'let x = [' + ', '.join(str(i) for i in range(300)) + '];\nprint(x.len());\n'
+F29_SRC_LAUNCH = ('let done = chan(1);\nfn f() { let x = [' + ', '.join(str(i) for i in range(300)) + ']; print(x.len()); done <- 1; }\n'
+                  'launch f();\nprint(<- done);\n')
+
+
+def _creation_finish(res, e, results, prefix, replay):
+    rest = []
+    for r in results:
+        if r.kind == 'panic' and 'slice range out of range' in str(r.info):
+            res.fail(prefix + 'stack larger than the static undefined array',
+                     'a function whose max_slots exceeds 254 cannot be given a fiber: &UNDEFINED_ARRAY[0..stack_count] is out of range (host panic)',
+                     {'path': str(r.info)}, replay=replay)
+        else:
+            rest.append(r)
+    _finish(res, e, rest, prefix)
